@@ -156,7 +156,8 @@ def edits(base):
             if rf.node.kind == "const":
                 continue
             if end >= 1:
-                for off, verdict in ((end - 1, "reject"), (end, "accept")):
+                # every offset below the minimum (0 .. end-1; capped at the 12 nearest plus 0 and 1), and the minimum itself
+                for off, verdict in [(o, "reject") for o in sorted(set(range(max(0, end - 12), end)) | {0, min(1, end - 1)})] + [(end, "accept")]:
                     s = variant()
                     tl = _find_level(s, label)
                     tl.fields[i].offset = off
@@ -210,7 +211,7 @@ def edits(base):
             if rm.node.kind == "const":
                 continue
             if end >= 1 and path[0] not in protected:
-                for off, verdict in ((end - 1, "reject"), (end, "accept")):
+                for off, verdict in [(o, "reject") for o in sorted(set(range(max(0, end - 12), end)) | {0, min(1, end - 1)})] + [(end, "accept")]:
                     s = variant()
                     _find_comp(s, path).members[i].offset = off
                     kind = "ref" if isinstance(m, ir.Ref) else ("nested-composite-member" if len(path) > 1 else "composite-member")
